@@ -225,8 +225,6 @@ class Project(_Project):
         self.ignored = _ResourceMatcher()
         self.file_list = _FileListCacher(self)
         self._init_prefs(prefs)
-        if ropefolder is not None:
-            self.prefs.add("ignored_resources", ropefolder)
         self._init_source_folders()
 
     def __repr__(self):
@@ -263,7 +261,9 @@ class Project(_Project):
     def _create_recursively(self, folder):
         if folder.parent != self.root and not folder.parent.exists():
             self._create_recursively(folder.parent)
-        folder.create()
+        # not a change of the project: nothing for the history to undo
+        # (nor for a version control system to know about)
+        os.mkdir(folder.real_path)
 
     def _init_prefs(self, prefs):
         config = get_config(self.root, self.ropefolder).parse()
@@ -272,6 +272,12 @@ class Project(_Project):
         self.ignored.set_patterns(self.prefs.ignored_resources)
         for key, value in prefs.items():
             self.prefs.set(key, value)
+        if self._ropefolder_name is not None:
+            # before the folder is created: it is not part of the project
+            self.prefs.set(
+                "ignored_resources",
+                list(self.prefs.ignored_resources) + [self._ropefolder_name],
+            )
         self._init_other_parts()
         self._init_ropefolder()
         if config.project_opened:
